@@ -34,7 +34,9 @@ async fn publife_case(addr: std::net::SocketAddr, certs: &Path, log: &EvLog, run
     let backoff = BackoffStrategy::constant().with_max_attempts(4).with_step(Duration::from_millis(20));
     // "re-registers with the same settings": every handle of a case uses the same compression setting,
     // which has to be in force again after every recovery
-    let comp = ["none", "lz4", "zstd:balanced", "gzip:fastest", "brotli_text:balanced"][(run % 5) as usize];
+    // (a schedule that cuts a connection in mid-write needs frames as large as the messages: no compression)
+    let mid = steps.iter().any(|s| s["op"] == "cut_pub_mid");
+    let comp = if mid { "none" } else { ["none", "lz4", "zstd:balanced", "gzip:fastest", "brotli_text:balanced"][(run % 5) as usize] };
     log.emit("settings", json!({"compression": comp}));
     let sync_client = connect_client(addr, certs, backoff.clone()).await?;
     let mut sync_pub: Pub = {
@@ -180,6 +182,41 @@ async fn publife_case(addr: std::net::SocketAddr, certs: &Path, log: &EvLog, run
                 }
                 tokio::time::sleep(Duration::from_millis(40)).await;
                 log.emit("op", json!({"op": op, "id": id}));
+            }
+            "cut_pub_mid" => {
+                // the connection is lost in the middle of a write: `m` messages of about a megabyte are fed to the
+                // handle (more than the stream's flow-control window admits at once), the writer is polled once,
+                // and the connection goes -- with a frame partly written
+                quiesce(&subs, &must).await;
+                report(&mut subs, log);
+                let m = st["m"].as_u64().unwrap_or(2);
+                let mut fed = 0;
+                if let Some(p) = pubs.get_mut(&id).and_then(|x| x.as_mut()) {
+                    for _ in 0..m {
+                        let n = sent[&id] + 1;
+                        let mut body = format!("P{id}:{n}:{:06x}:", run & 0xffffff);
+                        body.extend((0..1_000_000).map(|i| (b'a' + ((i * 7 + n as usize) % 26) as u8) as char));
+                        match tokio::time::timeout(Duration::from_millis(500), p.feed(body)).await {
+                            Ok(Ok(())) => {
+                                sent.insert(id, n);
+                                fed += 1;
+                            }
+                            _ => break,
+                        }
+                    }
+                    let _ = tokio::time::timeout(Duration::from_millis(30), p.flush()).await;
+                }
+                if let Some(c) = pub_clients.get(&conn) {
+                    c.verif_close_connection().await;
+                }
+                for (pid, p) in pubs.iter() {
+                    let pc = if *pid > origins { 1 } else { *pid };
+                    if pc == conn && p.is_some() {
+                        down.push(*pid);
+                    }
+                }
+                tokio::time::sleep(Duration::from_millis(40)).await;
+                log.emit("op", json!({"op": op, "id": id, "m": fed}));
             }
             "open_sub" => {
                 let c = connect_client(addr, certs, backoff.clone()).await?;
